@@ -18,7 +18,11 @@
 (*           thresholds.  Every clause below only uses the ORDER of        *)
 (*           feature values relative to each other and to thresholds, so   *)
 (*           both encodings decide it identically.                         *)
-(*   y       classification: original label values (arbitrary integers);   *)
+(*   y       classification: the original label values, which are arbitrary *)
+(*           floats (fractional, closer than machine epsilon, huge, ...),   *)
+(*           carried as order-preserving integer codes 1..k of the distinct *)
+(*           values; `classes` and the predictions are coded the same way   *)
+(*           (-1: a value that equals none of the labels);                  *)
 (*           regression: integer numerators of the targets over yden.      *)
 (*   nodes   the flat node array of the fitted model, 1-based here, with   *)
 (*           0-based child ids as in the serde dump:                       *)
